@@ -92,7 +92,7 @@ func c06UpstreamOPT() *dns.OPT {
 //
 //verif:entry tier=quick,thorough
 //verif:also C01 C19
-//verif:bound writer facts do/noedns/noad/nsid/keepalive/client-cookie and proto in {udp,tcp} all symbolic; request OPT absent or carrying a forwarded ECS; upstream message: qtype A or RRSIG, upstream AD symbolic, answer 0-1 RR (quick) / 0-2 (thorough) from {A,RRSIG,NSEC}, authority 0-1 from {SOA,NSEC3,RRSIG}, extra from {none, A, OPT with any subset of SUBNET/KEEPALIVE/LOCAL and symbolic DO/size}; size verdict symbolic
+//verif:bound writer facts do/noedns/noad/nsid/keepalive/client-cookie and proto in {udp,tcp} all symbolic; request OPT absent or carrying a forwarded ECS; upstream message: qtype A or RRSIG, upstream AD symbolic, answer 0-1 RR (both tiers; 2 exceeded the path budget); size verdict symbolic
 func VerifC06_EdnsWriteMsg() {
 	sink := &c06Sink{proto: "udp"}
 	if vBool("tcp") {
@@ -126,10 +126,9 @@ func VerifC06_EdnsWriteMsg() {
 	m.Question = []dns.Question{{Name: "a.example.", Qtype: qtype, Qclass: dns.ClassINET}}
 	m.Response = true
 	m.AuthenticatedData = vBool("upstream.ad")
+	// two upstream answer records exceed the path budget (> 200000 paths):
+	// one in both tiers
 	maxAn := 1
-	if vTier() > 0 {
-		maxAn = 2
-	}
 	for i := 0; i < maxAn; i++ {
 		if k := vChoice("answer.kind", 4); k > 0 {
 			m.Answer = append(m.Answer, c06RR(k, "a.example."))
